@@ -26,7 +26,7 @@ fn fin2() -> [f32; 2] {
     a
 }
 
-// @unit class=bounded tier=thorough mem=light timeout=1200 bound="dim=2" fns=linfa_kernel::KernelMethod::distance
+// @unit class=bounded tier=thorough mem=light timeout=900 bound="dim=2" fns=linfa_kernel::KernelMethod::distance
 #[kani::proof]
 #[kani::unwind(10)]
 #[kani::stub(alloc::fmt::format, fmt_stub)]
@@ -58,15 +58,16 @@ fn c06_method_linear_dim1() {
     kani::cover!(k == f32::NEG_INFINITY);
 }
 
-// @unit class=bounded tier=quick mem=light timeout=240 bound="dim=2,coords in -8..8" fns=linfa_kernel::KernelMethod::distance
+// @unit class=bounded tier=quick mem=light timeout=240 bound="dim=2,coords in -8..8,eps=e/4 e in -16..16" fns=linfa_kernel::KernelMethod::distance
 #[kani::proof]
 #[kani::unwind(10)]
 #[kani::stub(alloc::fmt::format, fmt_stub)]
 #[kani::stub(f32::exp, ghost_exp32)]
 fn c06_method_gaussian_dim2() {
     let (a, b) = (small2(), small2());
-    let eps: f32 = kani::any();
-    kani::assume(!eps.is_nan() && eps != 0.0);
+    let e: i8 = kani::any();
+    kani::assume(e >= -16 && e <= 16 && e != 0);
+    let eps = e as f32 / 4.0;
     let (pa, pb) = (arr1(&a), arr1(&b));
     let m: KernelMethod<f32> = KernelMethod::Gaussian(eps);
     let k = m.distance(pa.view(), pb.view());
@@ -74,15 +75,14 @@ fn c06_method_gaussian_dim2() {
     let arg = -sq / eps;
     unsafe {
         assert!(G_EXP_N == 1);
-        assert!(same(G_EXP_A[0], arg));
+        assert!(G_EXP_A[0] == arg);
         assert!(k.to_bits() == G_EXP_R[0].to_bits());
     }
     // consequences that do not depend on the value of exp: bandwidth > 0 gives a similarity in [0,1]
     if eps > 0.0 { assert!(k >= 0.0 && k <= 1.0); }
     assert!(!m.is_linear());
-    kani::cover!(eps > 0.0 && sq > 0.0 && sq.is_finite() && a[0] != b[0] && a[1] != b[1]);
+    kani::cover!(eps > 0.0 && sq > 0.0 && a[0] != b[0] && a[1] != b[1]);
     kani::cover!(eps < 0.0 && sq > 0.0);
-    kani::cover!(arg == f32::NEG_INFINITY);
     kani::cover!(eps > 0.0 && k < 1.0);
 }
 
@@ -118,12 +118,14 @@ fn c06_method_gaussian_dim1() {
     let m: KernelMethod<f32> = KernelMethod::Gaussian(eps);
     let k = m.distance(pa.view(), pb.view());
     let arg = -((a - b) * (a - b)) / eps;
-    unsafe {
-        assert!(G_EXP_N == 1 && same(G_EXP_A[0], arg) && k.to_bits() == G_EXP_R[0].to_bits());
+    // (a-b)^2 may overflow to +inf and eps may be infinite: inf/inf = NaN, exp(NaN) = NaN (the ghost does not record NaN calls)
+    if arg.is_nan() { assert!(k.is_nan()); } else {
+        unsafe { assert!(G_EXP_N == 1 && G_EXP_A[0] == arg && k.to_bits() == G_EXP_R[0].to_bits()); }
     }
     if eps > 0.0 { assert!(m.distance(pa.view(), pa.view()) == 1.0); }
     kani::cover!(eps > 0.0 && a != b && arg.is_finite());
     kani::cover!(eps < 0.0 && a != b);
+    kani::cover!(arg.is_nan());
 }
 
 // @unit class=bounded tier=quick mem=light timeout=240 bound="dim=2,coords in -8..8" fns=linfa_kernel::KernelMethod::distance
@@ -168,8 +170,8 @@ fn c06_method_polynomial_dim1() {
 
 // Symmetry k(a,b) = k(b,a) for the three kernels.  Commutativity of a float multiplier is out of reach of the SAT
 // back end on the full f32 domain (measured: no answer in 10 min), so coordinates are integers in [-8,8] (every
-// intermediate exact); bandwidth / constant / degree stay arbitrary finite f32.
-// @unit class=bounded tier=quick mem=light timeout=240 bound="dim=2,coords in -8..8" fns=linfa_kernel::KernelMethod::distance
+// intermediate exact) and bandwidth / constant / degree range over small grids (exp and powf are uninterpreted anyway).
+// @unit class=bounded tier=quick mem=light timeout=240 bound="dim=2,coords in -8..8,eps=e/4 e in 1..16,c in -8..8,d=k/2 k in -8..8" fns=linfa_kernel::KernelMethod::distance
 #[kani::proof]
 #[kani::unwind(10)]
 #[kani::stub(alloc::fmt::format, fmt_stub)]
@@ -177,8 +179,9 @@ fn c06_method_polynomial_dim1() {
 #[kani::stub(f32::powf, ghost_powf32)]
 fn c06_method_symmetric_dim2() {
     let (a, b) = (small2(), small2());
-    let (eps, c, d): (f32, f32, f32) = (kani::any(), kani::any(), kani::any());
-    kani::assume(eps.is_finite() && eps != 0.0 && c.is_finite() && d.is_finite());
+    let p: [i8; 3] = kani::any();
+    kani::assume(p[0] >= 1 && p[0] <= 16 && p[1] >= -8 && p[1] <= 8 && p[2] >= -8 && p[2] <= 8);
+    let (eps, c, d) = (p[0] as f32 / 4.0, p[1] as f32, p[2] as f32 / 2.0);
     let (pa, pb) = (arr1(&a), arr1(&b));
     let lin: KernelMethod<f32> = KernelMethod::Linear;
     let gau: KernelMethod<f32> = KernelMethod::Gaussian(eps);
@@ -190,6 +193,6 @@ fn c06_method_symmetric_dim2() {
     let p1 = pol.distance(pa.view(), pb.view());
     assert!(same(pol.distance(pb.view(), pa.view()), p1));
     kani::cover!(a[0] != b[0] && a[1] != b[1] && l1 != 0.0);
-    kani::cover!(g1 != 1.0 && eps > 0.0);
+    kani::cover!(g1 != 1.0);
     kani::cover!(p1 > 0.0 && c != 0.0);
 }
